@@ -115,3 +115,9 @@ __CPROVER_requires(wf_String(self))
 __CPROVER_ensures(str_findLast_post(self, c, __CPROVER_return_value))
 __CPROVER_assigns()
 ;
+_Bool str_compare_post(const struct String* a, const struct String* o, int r);
+int c_String_compare_str(const struct String* self, const struct String* other)
+__CPROVER_requires(wf_String(self) && wf_String(other) && self != other)
+__CPROVER_ensures(str_compare_post(self, other, __CPROVER_return_value))
+__CPROVER_assigns(__CPROVER_object_whole(self); __CPROVER_object_whole(other))
+;
